@@ -653,6 +653,63 @@ m("addr-refactor-guarded-copy", "NIL-ADDR", ["C16", "C17"], "refactor", MS,
   "\td := v.Interface().(Decimal)\n\treturn m.w.WriteDecimal(&d)\n", "\tif v.CanAddr() {\n\t\treturn m.w.WriteDecimal(v.Addr().Interface().(*Decimal))\n\t}\n\td := v.Interface().(Decimal)\n\treturn m.w.WriteDecimal(&d)\n", "", True,
   "Addr used under CanAddr, copy otherwise")
 
+
+# ---- OWN-SCRATCHOUT (expected count on the unchanged tree: zero; these are its positive examples)
+m("scratchout-timestamp-scratch-buffered", "OWN-SCRATCHOUT", ["C04", "C15", "C12"], "break", BW,
+  "\tbuf := make([]byte, 0, bufLength)\n\n\tbuf = appendTag(buf, 0x60, vlength)\n\tbuf = appendTimestamp(buf, offset, val)\n",
+  "\tif uint64(cap(w.tsbuf)) < bufLength {\n\t\tw.tsbuf = make([]byte, 0, bufLength)\n\t}\n\tbuf := w.tsbuf[:0]\n\n\tbuf = appendTag(buf, 0x60, vlength)\n\tbuf = appendTimestamp(buf, offset, val)\n", "buffer field tsbuf", True,
+  "every timestamp is encoded into one per-writer buffer that the datagram keeps by reference until Finish (seeded change C15-r5-3)",
+  more=[("\twroteLST bool\n}\n\n// NewBinaryWriter creates", "\twroteLST bool\n\n\ttsbuf []byte\n}\n\n// NewBinaryWriter creates")])
+m("scratchout-refactor-scratch-copied", "OWN-SCRATCHOUT", ["C04", "C15", "C12"], "refactor", BW,
+  "\tbuf := make([]byte, 0, bufLength)\n\n\tbuf = appendTag(buf, 0x60, vlength)\n\tbuf = appendTimestamp(buf, offset, val)\n",
+  "\tw.tsbuf = appendTimestamp(w.tsbuf[:0], offset, val)\n\tbuf := make([]byte, 0, bufLength)\n\n\tbuf = appendTag(buf, 0x60, vlength)\n\tbuf = append(buf, w.tsbuf...)\n", "", True,
+  "the scratch buffer is copied from, never handed out",
+  more=[("\twroteLST bool\n}\n\n// NewBinaryWriter creates", "\twroteLST bool\n\n\ttsbuf []byte\n}\n\n// NewBinaryWriter creates")])
+m("scratchout-clob-buffer-returned", "OWN-SCRATCHOUT", ["C02", "C08"], "break", TK,
+  "\tvar ret []byte\n\n\tfor {\n\t\tc, err := t.read()\n\t\tif err != nil {\n\t\t\treturn nil, err\n\t\t}\n\t\t// -1 denotes EOF, and new lines are not allowed in short string",
+  "\tret := t.lob[:0]\n\n\tfor {\n\t\tc, err := t.read()\n\t\tif err != nil {\n\t\t\treturn nil, err\n\t\t}\n\t\t// -1 denotes EOF, and new lines are not allowed in short string", "buffer field lob", True,
+  "clob text is collected in a buffer of the tokenizer and returned without a copy: a later clob overwrites an earlier ByteValue result (seeded change C02-r5-3)",
+  more=[("\tunfinished bool\n\tpos        uint64\n}", "\tunfinished bool\n\tpos        uint64\n\tlob        []byte\n}"),
+        ("closing \" , which means an empty clob.\n\t\t\t\treturn []byte{}, nil\n\t\t\t}\n\t\t\treturn ret, nil", "closing \" , which means an empty clob.\n\t\t\t\treturn []byte{}, nil\n\t\t\t}\n\t\t\tt.lob = ret\n\t\t\treturn ret, nil")])
+
+
+m("textivm-reset-before-doublecolon", "ORD-TEXTIVM", ["C02", "C10"], "break", TR,
+  "\t\tok, ws, err := t.tok.SkipDoubleColon()\n", "\t\tif tok == tokenSymbol && val == ionVersionMarker && len(t.annotations) == 0 && t.ctx.peek() == ctxAtTopLevel {\n\t\t\tt.lst = V1SystemSymbolTable\n\t\t}\n\t\tok, ws, err := t.tok.SkipDoubleColon()\n", "no '::' follows", True,
+  "$ion_1_0::x resets the symbol table although it is an annotated value (seeded change C02-r5-2)")
+
+
+m("eofonly-unexpected-eof-as-clean-end", "ERR-EOFONLY", ["C19", "C07"], "break", BS,
+  "\tc, err := b.in.ReadByte()\n\tb.pos++\n\n\tif err == io.EOF {\n", "\tc, err := b.in.ReadByte()\n\tb.pos++\n\n\tif err == io.EOF || err == io.ErrUnexpectedEOF {\n", "sentinel", True,
+  "io.ErrUnexpectedEOF from the source ends a binary traversal with Err() == nil (seeded change C19-r5-2)")
+m("readvia-zero-length-int-shortcut", "TAB-READVIA", ["C07", "C03"], "break", BR,
+  "\t\tif !r.bits.IsNull() {\n\t\t\tval, err := r.bits.ReadInt()\n", "\t\tif !r.bits.IsNull() {\n\t\t\tif r.bits.Len() == 0 {\n\t\t\t\tr.value = int64(0)\n\t\t\t\treturn true, nil\n\t\t\t}\n\t\t\tval, err := r.bits.ReadInt()\n", "current value stored", True,
+  "0x30 (negative zero) is delivered as 0 (seeded change C07-r5-2)")
+
+
+m("bigfit-int64value-trusts-dynamic-type", "NUM-BIGFIT", ["C13"], "break", RD,
+  "\tbi := r.value.(*big.Int)\n\tif bi.IsInt64() {\n\t\tval := bi.Int64()\n\t\treturn &val, nil\n\t}\n\n\treturn nil, &UsageError{\"Reader.Int64Value\"", "\treturn nil, &UsageError{\"Reader.Int64Value\"", "error exit of Int64Value", True,
+  "-2^63, which the binary reader delivers as *big.Int, is refused by Int64Value (seeded change C13-r5-3)")
+
+
+m("bigfresh-neg-in-place", "OWN-BIGFRESH", ["C14", "C18"], "break", DEC,
+  "\t\tn:     new(big.Int).Neg(d.n),", "\t\tn:     d.n.Neg(d.n),", "big.Int.Neg", True,
+  "Neg negates the operand's own coefficient")
+m("bigfresh-refactor-local-accumulator", "OWN-BIGFRESH", ["C14", "C18"], "refactor", DEC,
+  "\treturn &Decimal{\n\t\tn:     new(big.Int).Add(dd.n, oo.n),", "\tsum := new(big.Int)\n\tsum.Add(dd.n, oo.n)\n\treturn &Decimal{\n\t\tn:     sum,", "", True,
+  "the fresh receiver is held in a local first")
+
+
+m("poolreset-buffer-returned-dirty-on-error", "ORD-POOLRESET", ["C18"], "break", MS,
+  "\tbuf := bytes.Buffer{}\n\tw := NewTextWriterOpts(&buf, TextWriterQuietFinish)\n\te := Encoder{\n\t\tw:    w,\n\t\topts: EncodeSortMaps,\n\t}\n\n\tif err := e.Encode(v); err != nil {\n\t\treturn nil, err\n\t}\n\tif err := e.Finish(); err != nil {\n\t\treturn nil, err\n\t}\n\n\treturn buf.Bytes(), nil\n",
+  "\tbuf := marshalBuffers.Get().(*bytes.Buffer)\n\tdefer marshalBuffers.Put(buf)\n\tw := NewTextWriterOpts(buf, TextWriterQuietFinish)\n\te := Encoder{\n\t\tw:    w,\n\t\topts: EncodeSortMaps,\n\t}\n\n\tif err := e.Encode(v); err != nil {\n\t\treturn nil, err\n\t}\n\tif err := e.Finish(); err != nil {\n\t\treturn nil, err\n\t}\n\n\tres := append([]byte(nil), buf.Bytes()...)\n\tbuf.Reset()\n\treturn res, nil\n", "sync.Pool", True,
+  "a pooled buffer goes back with the partial output of a failed MarshalText (seeded change C18-r5-3)",
+  more=[("\t\"sort\"\n\t\"time\"\n)\n", "\t\"sort\"\n\t\"sync\"\n\t\"time\"\n)\n\nvar marshalBuffers = sync.Pool{New: func() interface{} { return &bytes.Buffer{} }}\n")])
+m("poolreset-refactor-reset-first", "ORD-POOLRESET", ["C18"], "refactor", MS,
+  "\tbuf := bytes.Buffer{}\n\tw := NewTextWriterOpts(&buf, TextWriterQuietFinish)\n\te := Encoder{\n\t\tw:    w,\n\t\topts: EncodeSortMaps,\n\t}\n\n\tif err := e.Encode(v); err != nil {\n\t\treturn nil, err\n\t}\n\tif err := e.Finish(); err != nil {\n\t\treturn nil, err\n\t}\n\n\treturn buf.Bytes(), nil\n",
+  "\tbuf := marshalBuffers.Get().(*bytes.Buffer)\n\tbuf.Reset()\n\tdefer marshalBuffers.Put(buf)\n\tw := NewTextWriterOpts(buf, TextWriterQuietFinish)\n\te := Encoder{\n\t\tw:    w,\n\t\topts: EncodeSortMaps,\n\t}\n\n\tif err := e.Encode(v); err != nil {\n\t\treturn nil, err\n\t}\n\tif err := e.Finish(); err != nil {\n\t\treturn nil, err\n\t}\n\n\treturn append([]byte(nil), buf.Bytes()...), nil\n", "", True,
+  "the buffer is reset when it is taken out, before anything is written",
+  more=[("\t\"sort\"\n\t\"time\"\n)\n", "\t\"sort\"\n\t\"sync\"\n\t\"time\"\n)\n\nvar marshalBuffers = sync.Pool{New: func() interface{} { return &bytes.Buffer{} }}\n")])
+
 os.makedirs(os.path.dirname(os.path.abspath(__file__)), exist_ok=True)
 with open(os.path.join(os.path.dirname(os.path.abspath(__file__)), "core.json"), "w") as f:
     json.dump(M, f, indent=1)
